@@ -96,9 +96,99 @@ def exp_one_carriers(env):
     return ok
 
 
+KW = ('<units name="W"><unit units="metre"/><unit units="second" exponent="-1"/></units><units name="kW"><unit units="W" prefix="kilo"/></units>'
+      '<units name="kW2"><unit units="metre" prefix="kilo"/><unit units="second" exponent="-1"/></units>')
+HINT_DOC = ('<?xml version="1.0" encoding="UTF-8"?>\n<model xmlns="http://www.cellml.org/cellml/2.0#" name="m">' + KW +
+            '<component name="c1"><variable name="a" units="kW" interface="public"/></component><component name="c2"><variable name="a" units="metre" interface="public"/></component>'
+            '<connection component_1="c1" component_2="c2"><map_variables variable_1="a" variable_2="a"/></connection></model>\n')
+WARN_DOC = ('<?xml version="1.0" encoding="UTF-8"?>\n<model xmlns="http://www.cellml.org/cellml/2.0#" name="m">' + KW +
+            '<component name="c1"><variable name="a" units="kW"/><variable name="b" units="kW2" initial_value="1"/>'
+            '<math xmlns="http://www.w3.org/1998/Math/MathML"><apply><eq/><ci>a</ci><ci>b</ci></apply></math></component></model>\n')
+
+
+def scale_reports(chk, lib):
+    """the scale the validator reports for a mismatch and the analyser's own units arithmetic on kW = kilo (metre.second^-1), a prefix
+    on a reference to compound units: the reported factor is the one Units::scalingFactor gives (10^3), and a = b with a in kW and
+    b in (kilo metre).second^-1 (equivalent units) is not reported as a mismatch"""
+    kf = {f['id']: f for f in known_findings()['findings'] if f['property'] == 'C08'}
+    wd = tempfile.mkdtemp(prefix='c08p-')
+    try:
+        hr = build_hx('hx_roundtrip', lib)
+        fn = os.path.join(wd, 'h.cellml'); open(fn, 'w').write(HINT_DOC)
+        r = subprocess.run([hr, fn], capture_output=True, text=True, timeout=120)
+        hints = re.findall(r'multiplication factor of 10\^(-?\d+)', r.stdout)
+        chk.cov['validator_hint_probe'] = hints
+        if '=====T2' not in r.stdout:
+            chk.violation('implementation violates the units algebra: the validator crashed on the scale-report probe', {'kind': 'oracle', 'engine': 'files', 'cellml': HINT_DOC}, True)
+        elif hints != ['3']:
+            chk.violation('implementation violates the units algebra: kW = kilo (metre.second^-1) connected to metre: the validator reports a scale mismatch of 10^%s, Units gives 10^3' % hints,
+                          {'kind': 'oracle', 'engine': 'files', 'cellml': HINT_DOC, 'why': 'reported scale mismatch %s, expected [3]' % hints}, True)
+        hg = build_hx('hx_gencode', lib)
+        fn = os.path.join(wd, 'w.cellml'); open(fn, 'w').write(WARN_DOC)
+        r = subprocess.run([hg, fn, 'C'], capture_output=True, text=True, timeout=120)
+        m = re.search(r'analyser_warnings (\d+)', r.stdout)
+        chk.cov['analyser_units_probe'] = m.group(1) if m else None
+        if not m:
+            chk.violation('implementation violates the units algebra: the analyser crashed on the units-arithmetic probe', {'kind': 'oracle', 'engine': 'files', 'cellml': WARN_DOC}, True)
+        elif m.group(1) != '0':
+            if 'C08-analyser-parent-scale-counted-per-child' in kf:
+                chk.known_finding(kf['C08-analyser-parent-scale-counted-per-child']['what'])
+            else:
+                chk.violation('implementation violates the units algebra: a = b with a in kW = kilo (metre.second^-1) and b in (kilo metre).second^-1 (Units::equivalent) makes the analyser warn that the units are not equivalent',
+                              {'kind': 'oracle', 'engine': 'files', 'cellml': WARN_DOC, 'why': 'analyser_warnings ' + m.group(1)}, True)
+    finally:
+        shutil.rmtree(wd, ignore_errors=True)
+
+
+def applied_scaling(chk, lib, rng):
+    """the scaling the analyser and generator apply to connected variables is the one Units::scalingFactor gives: k = 123 in units A,
+    seen in another component as k_y in units B; y = k_y (alone on the right-hand side), z = k_y + k_y, w = 2 k_y; the generated C code is run"""
+    sys.path.insert(0, os.path.join(ROOT, 'pygen'))
+    import models as M
+    pairs = [(a, b) for d in M.BY_DIM.values() for a in d for b in d if a != b]
+    rng.shuffle(pairs)
+    hg = build_hx('hx_gencode', lib)
+    wd = tempfile.mkdtemp(prefix='c08s-')
+    n = 0
+    try:
+        for a, b in pairs[:12 if chk.tier == 'quick' else len(pairs)]:
+            defs = ''.join(x for nm, (d, sc, x) in M.UNITS.items() if x and nm in (a, b))
+            doc = ('<?xml version="1.0" encoding="UTF-8"?>\n<model xmlns="http://www.cellml.org/cellml/2.0#" xmlns:cellml="http://www.cellml.org/cellml/2.0#" name="m">' + defs +
+                   '<component name="src"><variable name="k" units="%s" initial_value="123" interface="public"/></component>'
+                   '<component name="use"><variable name="k_y" units="%s" interface="public"/><variable name="y" units="%s"/><variable name="z" units="%s"/><variable name="w" units="%s"/>'
+                   '<math xmlns="http://www.w3.org/1998/Math/MathML"><apply><eq/><ci>y</ci><ci>k_y</ci></apply><apply><eq/><ci>z</ci><apply><plus/><ci>k_y</ci><ci>k_y</ci></apply></apply>'
+                   '<apply><eq/><ci>w</ci><apply><times/><cn cellml:units="dimensionless">2</cn><ci>k_y</ci></apply></apply></math></component>'
+                   '<connection component_1="src" component_2="use"><map_variables variable_1="k" variable_2="k_y"/></connection></model>\n') % (a, b, b, b, b)
+            fn = os.path.join(wd, 'm.cellml'); open(fn, 'w').write(doc)
+            r = subprocess.run([hg, fn, 'C'], capture_output=True, text=True, timeout=120)
+            out = r.stdout
+            if '=====IMPL' not in out:
+                chk.violation('implementation violates the units algebra: the library crashed on connected variables in %s / %s' % (a, b), {'kind': 'oracle', 'engine': 'files', 'cellml': doc}, True); continue
+            iface = out[out.index('=====IFACE') + 11:out.index('=====IMPL')]
+            impl = out[out.index('=====IMPL') + 10:]
+            lines, err = M.run_generated_c(impl, iface, wd, False)
+            if err:
+                chk.violation('implementation violates the units algebra: generated code for connected variables in %s / %s does not run: %s' % (a, b, err[:200]), {'kind': 'oracle', 'engine': 'files', 'cellml': doc}, True); continue
+            vals = {l.split()[2]: float(l.split()[3]) for l in lines if len(l.split()) >= 4}
+            f = M.scale(a) / M.scale(b)
+            n += 1
+            for nm, want in (('y', 123 * f), ('z', 246 * f), ('w', 246 * f)):
+                got = vals.get(nm)
+                if got is None or abs(got - want) > 1e-9 * max(1.0, abs(want)):
+                    chk.violation('implementation violates the units algebra: k = 123 %s seen as %s: %s is computed as %r, the scaling factor gives %r' % (a, b, {'y': 'y = k_y', 'z': 'z = k_y + k_y', 'w': 'w = 2 k_y'}[nm], got, want),
+                                  {'kind': 'oracle', 'engine': 'files', 'cellml': doc, 'why': '%s = %r, expected %r' % (nm, got, want)}, True)
+                    break
+    finally:
+        shutil.rmtree(wd, ignore_errors=True)
+    chk.cov['applied_scaling_models'] = n
+
+
 def run(chk, replay=None):
     lib = build_lib()
     hx = build_hx('hx_units', lib)
+    if not replay:
+        scale_reports(chk, lib)
+        applied_scaling(chk, lib, random.Random(chk.seed + 8))
     _, tbl, _ = run_lines(hx, ['tables'], [])
     gen = {'Cellml/Generated/StdUnits.lean': tables.std_units_table('\n'.join(tbl))}
     leandir, ok, out, changed = standard_lean(chk, 'C08', gen)
